@@ -21,6 +21,20 @@ def cases(tier, seed):
     if tier == 'quick':
         strs = strs[:1] + rng.sample(strs[1:], min(70, len(strs) - 1))
     seps = ['', ',', 'a', ' ', 'é', 'ab', ',,', '😀', 'a,']
+    # every string parameter of every string function over a tiny alphabet that includes the empty string and the
+    # whole subject (exhaustive): the degenerate combinations (empty source, empty pattern, pattern = source)
+    tiny = ['', 'a', 'ab', 'é', 'a,a', ' ']
+    for s0, p0, r0 in itertools.product(tiny, tiny, tiny):
+        d3 = {'s': s0, 'p': p0, 'r': r0}
+        for e in ['$replace(s, p, r)', '$replace(s, p, r, 1)', '$split(s, p)', '$split(s, p, 1)', '$contains(s, p)', '$substringBefore(s, p)', '$substringAfter(s, p)', '$join([s, p], r)', '$pad(s, 3, p)',
+                  '$substringBefore(s, p) & p & $substringAfter(s, p)', '$join($split(s, p), p)', '$replace(s, p, p)', '$split(s, p) ~> $count()']:
+            if r0 != '' and 'r' not in e.replace('$replace', '').replace('$substringBefore', '').replace('$substringAfter', ''):
+                continue
+            add(e, d3, ('degenerate',))
+    for s0 in tiny:
+        for e in ['$length(s)', '$uppercase(s)', '$lowercase(s)', '$trim(s)', '$substring(s, 0)', '$substring(s, 1, 0)', '$substring(s, -1)', '$pad(s, 0)', '$pad(s, -2)', '$base64encode(s)', '$base64decode($base64encode(s)) = s',
+                  '$encodeUrlComponent(s)', '$decodeUrlComponent($encodeUrlComponent(s)) = s', '$string(s)', '$number(s)', '$split(s, "")', '$join([s])', '$join([])', '$contains(s, s)', '$substringBefore(s, s)', '$substringAfter(s, s)', '$replace(s, s, "x")']:
+            add(e, {'s': s0}, ('degenerate',))
     # $pad: every pad string of 1..4 code points over characters of UTF-8 width 1, 2, 3 and 4, every width -12..12, on
     # subjects of 0..3 code points: the result is subject + the pad string repeated and cut to the missing code points
     padchars = ['a', 'é', '€', '😀']
